@@ -1,0 +1,27 @@
+//go:build verif
+
+// Contracts for package graph (comment-only; compiled to nothing).
+// Read by /verif/govc; see /verif/DESIGN.md section 2.1 for the syntax.
+
+package graph
+
+// ---------------------------------------------------------------------------
+// shared spec vocabulary
+
+//@ spec bandsDistinct(g *DGraph) bool =
+//@   (forall i int :: 0 <= i && i < len(g.Layers) ==> g.Layers[i] != nil)
+//@   && (forall i int, j int :: 0 <= i && i < j && j < len(g.Layers) ==> g.Layers[i] != g.Layers[j])
+//@   && (forall i int, k int :: 0 <= i && i < len(g.Layers) && 0 <= k && k < len(g.Layers[i].Nodes) ==> g.Layers[i].Nodes[k] != nil)
+//@   && (forall i int, k int, j int, m int :: 0 <= i && i < len(g.Layers) && 0 <= k && k < len(g.Layers[i].Nodes)
+//@        && 0 <= j && j < len(g.Layers) && 0 <= m && m < len(g.Layers[j].Nodes) && (i != j || k != m)
+//@        ==> g.Layers[i].Nodes[k] != g.Layers[j].Nodes[m])
+
+//@ spec sizesNonNeg(g *DGraph) bool =
+//@   forall i int, k int :: 0 <= i && i < len(g.Layers) && 0 <= k && k < len(g.Layers[i].Nodes)
+//@     ==> g.Layers[i].Nodes[k].W >= 0.0 && g.Layers[i].Nodes[k].H >= 0.0
+
+// rowPre(l, j, s): sum over the first j nodes of band l of (width + s)
+//@ spec rowPre(l *Layer, j int, s float64) float64 = j <= 0 ? 0.0 : rowPre(l, j-1, s) + l.Nodes[j-1].W + s
+
+// rowW(l, s): sum of widths plus s between consecutive nodes
+//@ spec rowW(l *Layer, s float64) float64 = len(l.Nodes) > 0 ? rowPre(l, len(l.Nodes), s) - s : 0.0
